@@ -1756,6 +1756,17 @@ class ArraySetProfile(Translator):
             self.em.w(f"let {t} ← (ASet.copyWithin m.vals {self.atom(a[0])} {self.atom(a[1])} {self.atom(a[2])}).toOption")
             self.em.w(f"m := {{ m with vals := {t} }}")
             return True
+        # the safe form of the same move: `self.values.copy_within(lo..hi, dest)` (panics where the ranges leave the slice)
+        if e.kind == "mcall" and e.name == "copy_within" and self.is_values(e.recv) and len(e.args) == 2 \
+                and e.args[0].kind == "range" and not e.args[0].incl and e.args[0].lo is not None and e.args[0].hi is not None:
+            lo = self.ex(e.args[0].lo, hoist=True)
+            hi = self.ex(e.args[0].hi, hoist=True)
+            dest = self.ex(e.args[1], hoist=True)
+            t = self.fresh()
+            self.em.w(f"if ¬ ({lo} ≤ {hi}) then failure")
+            self.em.w(f"let {t} ← (ASet.copyWithin m.vals {self.atom(lo)} {self.atom(dest)} ({hi} - {lo})).toOption")
+            self.em.w(f"m := {{ m with vals := {t} }}")
+            return True
         return super().effect_stmt(e)
 
     def profile_assign(self, s):
